@@ -2,11 +2,12 @@
 from .. import gen
 from . import common
 from .C03 import strict_parse
+from .C12 import derive, retype
 
 SPEC_THEOREM = 'Props/C11: is_jsonb separates text from encodings; every dispatching function gives the same result on spell d and enc (denote d)'
 TRUSTED = ['Coq 8.16.1 kernel', 'translator (is_jsonb byte set)', 'extraction + OCaml driver', 'Rust harness', 'model Dispatch.v (the dispatch of every public function as written)']
 ASSUMPTIONS = ['JSON texts are valid, finite and do not begin with a space; top-level count < 2^24']
-RULE = 'every public function taking documents, all 2^k text/binary choices of its k document arguments, arguments from the C05/C06/C08/C12/C13 streams; the outcomes of the 2^k calls must be equal; non-trivial = outcome is not none/false/error'
+RULE = 'every public function taking documents, all 2^k text/binary choices of its k document arguments, arguments from the C05/C06/C08/C12/C13 streams (second documents unrelated to, derived from, or a re-typed copy of the first); the outcomes of the 2^k calls must be equal; non-trivial = outcome is not none/false/error'
 
 
 def unary_ops(ctx, v):
@@ -49,7 +50,19 @@ def generate(ctx):
         for op in unary_ops(ctx, v):
             ids = [ctx.add(op.format(x)).id for x in (b, t)]
             ctx.groups.append((op, ids))
-        w = r.choice(ds)
+        # the second document: unrelated, or derived from the first (a part of it, an element of it, numbers re-typed 1 / 1.0),
+        # so that containment, overlap and equality actually hold for a good share of the pairs
+        c = r.random()
+        if c < 0.35:
+            w = r.choice(ds)
+        elif c < 0.55:
+            w = gen.text_form(derive(ctx, v))
+        elif c < 0.85:
+            w = gen.text_form(retype(ctx, derive(ctx, v)))
+        elif v[0] == 'a' and v[1]:
+            w = gen.text_form(retype(ctx, r.choice(v[1])))
+        else:
+            w = gen.text_form(retype(ctx, v))
         wb, wt = gen.hexarg(gen.enc(w)), gen.hexarg(gen.json_text(w, r))
         if gen.unhexarg(wt)[:1] == b' ':
             continue
